@@ -177,6 +177,31 @@ def copy_feature(f, dialect=None):
     return g
 
 
+def _rel_goals(ins, fmt, key_for_rel, h):
+    goals = []
+    for e in ins:
+        try:
+            if e.how == "executemany":
+                rows = [IM.insert_values(e, list(r))[3] for r in e.args]
+                t, conflict, cols, _ = IM.insert_values(e, list(e.args[0])) if e.args else (None, None, None, None)
+            else:
+                t, conflict, cols, vals = IM.insert_values(e)
+                rows = [vals]
+            order = cols or Q.TABLE_COLS["relations"]
+            for vals in rows:
+                row = dict(zip(order, vals))
+                if fmt == "gff":
+                    goals.append(z3.And(IM.veq(row["child"], key_for_rel), IM.veq(row["level"], 1),
+                                        IM.veq(row["parent"], h["parents"].elem(e.forall[1])) if e.forall else z3.BoolVal(False)))
+                else:
+                    goals.append(z3.Or(z3.And(IM.veq(row["child"], key_for_rel), IM.veq(row["parent"], h["tid"]), IM.veq(row["level"], 1)),
+                                       z3.And(IM.veq(row["child"], key_for_rel), IM.veq(row["parent"], h["gid"]), IM.veq(row["level"], 2)),
+                                       z3.And(IM.veq(row["child"], h["tid"]), IM.veq(row["parent"], h["gid"]), IM.veq(row["level"], 1))))
+        except (Q.SQLArgs, Q.SQLSyntax, Undecided, KeyError):
+            goals.append(z3.BoolVal(False))
+    return goals
+
+
 def unit_collision(U):
     for cls, fmt in ((C._GFFDBCreator, "gff"), (C._GTFDBCreator, "gtf")):
         for strat in ("error", "warning", "replace", "create_unique"):
@@ -233,27 +258,7 @@ def unit_collision(U):
                     key_for_rel = k
                 # relations of the kept newcomer are filed under its final key
                 ins = [e for e in rel_dml if e.kind == "insert"]
-                goals = []
-                for e in ins:
-                    try:
-                        if e.how == "executemany":
-                            rows = [IM.insert_values(e, list(r))[3] for r in e.args]
-                            t, conflict, cols, _ = IM.insert_values(e, list(e.args[0])) if e.args else (None, None, None, None)
-                        else:
-                            t, conflict, cols, vals = IM.insert_values(e)
-                            rows = [vals]
-                        order = cols or Q.TABLE_COLS["relations"]
-                        for vals in rows:
-                            row = dict(zip(order, vals))
-                            if fmt == "gff":
-                                goals.append(z3.And(IM.veq(row["child"], key_for_rel), IM.veq(row["level"], 1),
-                                                    IM.veq(row["parent"], h["parents"].elem(e.forall[1])) if e.forall else z3.BoolVal(False)))
-                            else:
-                                goals.append(z3.Or(z3.And(IM.veq(row["child"], key_for_rel), IM.veq(row["parent"], h["tid"]), IM.veq(row["level"], 1)),
-                                                   z3.And(IM.veq(row["child"], key_for_rel), IM.veq(row["parent"], h["gid"]), IM.veq(row["level"], 2)),
-                                                   z3.And(IM.veq(row["child"], h["tid"]), IM.veq(row["parent"], h["gid"]), IM.veq(row["level"], 1))))
-                    except (Q.SQLArgs, Q.SQLSyntax, Undecided, KeyError):
-                        goals.append(z3.BoolVal(False))
+                goals = _rel_goals(ins, fmt, key_for_rel, h)
                 U.prove(base + ".relations#p%d" % p.index, "the kept newcomer's links are filed under its final key (GFF3: (Parent[i], key', 1); GTF: (t, key', 1), (g, key', 2), (g, t, 1)); nothing else is inserted into relations",
                         p.pc, z3.And(*goals) if goals else z3.BoolVal(True), {}, replay=replay)
 
@@ -280,6 +285,117 @@ def _update_is_row(e, f):
             conds.append(_streq(args[i], v))
     conds.append(z3.BoolVal(isinstance(args[9], IM.OpaqueJSON) and args[9].of is f.attributes))
     return z3.And(*conds)
+
+
+FORCE_FIELDS = [(), ("source",), ("source", "score"), ("score", "source"), ("frame", "score", "source"), ("strand", "featuretype")]
+
+
+def _native_merge_fields(fmt, fmf):
+    """replay: three colliding lines that differ in the forced columns, through the real create_db"""
+    vals = {"source": ["sA", "sB", "sC"], "score": ["1", "2", "3"], "frame": ["0", "1", "2"], "strand": ["+", "-", "."], "featuretype": ["exon", "CDS", "utr"]}
+    feats = []
+    for i in range(3):
+        kw = {c: vals[c][i] for c in fmf}
+        if fmt == "gff":
+            feats.append(F.Feature(seqid="c", source=kw.pop("source", "s"), featuretype=kw.pop("featuretype", "exon"), start=1, end=5, score=kw.pop("score", "."),
+                                   strand=kw.pop("strand", "+"), frame=kw.pop("frame", "."), attributes={"ID": ["k"], "Name": ["n%d" % i]}))
+        else:
+            feats.append(F.Feature(seqid="c", source=kw.pop("source", "s"), featuretype=kw.pop("featuretype", "exon"), start=1, end=5, score=kw.pop("score", "."),
+                                   strand=kw.pop("strand", "+"), frame=kw.pop("frame", "."), attributes={"gene_id": ["g"], "transcript_id": ["t"], "exon_id": ["k"], "Name": ["n%d" % i]}))
+    kw = dict(id_spec="ID") if fmt == "gff" else dict(id_spec={"exon": "exon_id", "CDS": "exon_id", "utr": "exon_id", "gene": "gene_id", "transcript": "transcript_id"},
+                                                       disable_infer_genes=True, disable_infer_transcripts=True)
+    dial = dict(constants.dialect, fmt="gtf") if fmt == "gtf" else None
+    try:
+        db = gffutils.create_db([copy_feature(f, dial) for f in feats], ":memory:", merge_strategy="merge", force_merge_fields=list(fmf), dialect=dial, **kw)
+        row = db["k"]
+    except Exception as e:
+        return {"inputs": {"force_merge_fields": list(fmf), "lines": [str(f) for f in feats]}, "observed": "raised %r" % (e,), "violates": True}
+    exp = {c: ",".join(sorted(set(vals[c]))) for c in fmf}
+    got = {c: getattr(row, c) for c in fmf}
+    return {"inputs": {"force_merge_fields": list(fmf), "lines": [str(f) for f in feats]}, "expected": exp, "observed": got,
+            "violates": any(sorted(got[c].split(",")) != sorted(exp[c].split(",")) for c in fmf) or sorted(row.attributes["Name"]) != ["n0", "n1", "n2"]}
+
+
+def unit_collision_merge(U):
+    """the populate loop when the collision is resolved by merging (the merged record `fixed` is what
+    _do_merge returned, contract C05.do_merge.*): the stored row under fixed.id gets fixed's attributes and,
+    for every forced field, fixed's value in THAT column; the newcomer's links are filed under fixed.id"""
+    import lark
+    for cls, fmt in ((C._GFFDBCreator, "gff"), (C._GTFDBCreator, "gtf")):
+        for fmf in FORCE_FIELDS:
+            it = _interp()
+
+            def run(ctx, cls=cls, fmf=fmf, it=it):
+                fid, _ = IM.sval("f.ID")
+                kid, _ = IM.sval("fixed.id")
+                parents, plen, pat = IM.sym_seq_of_strings("f.Parent")
+                ctx.assume(plen >= 0)
+                tid, _ = IM.sval("f.transcript_id")
+                gid, _ = IM.sval("f.gene_id")
+                if cls is C._GFFDBCreator:
+                    attrs = {"ID": [fid], "Parent": parents}
+                else:
+                    attrs = {"gene_id": [gid], "transcript_id": [tid], "ID": [fid]}
+                f, _ = IM.sym_feature("f", attrs)
+                fixed, _ = IM.sym_feature("fixed", {"ID": [fid]})
+                fixed.id = kid
+                state = {"n": 0}
+
+                def on_execute(cur, q, a):
+                    st = Q.parse(q)
+                    if st.kind == "insert" and IM.insert_info(st.node)[0] == "features":
+                        state["n"] += 1
+                        if state["n"] == 1:
+                            raise sqlite3.IntegrityError("UNIQUE constraint failed: features.id")
+                conn = ghostdb.GhostConn(on_execute=on_execute)
+                cr = IM.blank_creator(cls, conn, id_spec="ID", merge_strategy="merge", counters=IM.SymMap("cnt"), force_merge_fields=list(fmf))
+                it.contracts[C._DBCreator._do_merge] = lambda interp, a, k: (fixed, "merge")
+                ctx.stash.update(f=f, fixed=fixed, kid=kid, parents=parents, tid=tid, gid=gid)
+                it.call(cls._populate_from_lines, [cr, [f]], {})
+                return f
+            base = "C05.%s.collision[merge,force=%s]" % (fmt, "+".join(fmf) or "none")
+            replay = lambda m, fmt=fmt, fmf=fmf: _native_merge_fields(fmt, fmf or ("source",))
+            for p in U.explore(run, it):
+                if p.kind != "return":
+                    U.prove(base + ".noraise#p%d" % p.index, "raises nothing (got %r)" % (p.value,), p.pc, z3.BoolVal(False), {}, replay=replay)
+                    continue
+                h = p.ctx.stash
+                fixed, kid = h["fixed"], h["kid"]
+                effs = IM.classify(p.ctx.effects)
+                stm = [e for e in effs if e.kind in ("insert", "update", "delete")][1:]
+                ups = [e for e in stm if e.table == "features"]
+                pairs, conds = [], []
+                wellformed = all(e.kind == "update" for e in ups) and bool(ups)
+                for e in ups if wellformed else []:
+                    node = e.stmt.node
+                    assigns = [c for c in node.children if isinstance(c, lark.Tree) and c.data == "assign"]
+                    where = [c for c in node.children if isinstance(c, lark.Tree) and c.data == "where"]
+                    args = list(e.args)
+                    if len(where) != 1 or len(args) != len(assigns) + 1 or any(Q.expr_text(a.children[-1]).strip() != "?" for a in assigns):
+                        wellformed = False
+                        break
+                    conds.append(z3.BoolVal(Q.expr_text(where[0].children[-1]).replace(" ", "") in ("cmp[id,=,?]", "cmp[features.id,=,?]")))
+                    conds.append(_streq(args[-1], kid))
+                    for a, v in zip(assigns, args[:-1]):
+                        pairs.append((str(a.children[0]), v))
+                want = ["attributes"] + list(fmf)
+                goal = z3.BoolVal(False)
+                if wellformed and sorted(c for c, v in pairs) == sorted(want):
+                    for c, v in pairs:
+                        if c == "attributes":
+                            conds.append(z3.BoolVal(isinstance(v, IM.OpaqueJSON) and v.of is fixed.attributes))
+                        else:
+                            conds.append(_streq(v, getattr(fixed, c)))
+                    goal = z3.And(*conds)
+                U.prove(base + ".row#p%d" % p.index,
+                        "'merge' ==> only UPDATEs WHERE id = <id of the merged record>; attributes := json(merged attributes) and, for every field of force_merge_fields, column <field> := merged.<field> (column and value in lock-step); no other column written",
+                        p.pc, goal, {}, replay=replay)
+                rel = [e for e in stm if e.table == "relations"]
+                goals = [z3.BoolVal(all(e.kind == "insert" for e in rel))] + _rel_goals([e for e in rel if e.kind == "insert"], fmt, kid, h)
+                U.prove(base + ".relations#p%d" % p.index, "'merge' ==> the newcomer's links are filed under the id of the record it was merged into; nothing else touches relations",
+                        p.pc, z3.And(*goals), {}, replay=replay)
+                other = [e for e in stm if e.table not in ("features", "relations")]
+                U.prove(base + ".frame#p%d" % p.index, "'merge' step writes no other table", p.pc, z3.BoolVal(not other), {}, replay=replay)
 
 
 def unit_merge_no_candidate(U):
@@ -406,6 +522,21 @@ def unit_bounded_merge(U):
                      cases, fails, distinct=len(distinct))
 
 
+def unit_bounded_force_fields(U):
+    """bounded: three colliding lines differing in the forced columns, every FORCE_FIELDS order, both importers"""
+    fails, cases = [], 0
+    for fmt in ("gff", "gtf"):
+        for fmf in FORCE_FIELDS:
+            if not fmf:
+                continue
+            cases += 1
+            r = _native_merge_fields(fmt, fmf)
+            if r.get("violates"):
+                fails.append({"case": {"fmt": fmt, "force_merge_fields": list(fmf)}, "expected": r.get("expected"), "observed": r.get("observed"), "inputs": r.get("inputs")})
+    U.bounded_result("C05.bounded.force_fields", "merge + force_merge_fields: each forced column holds the comma-joined distinct values of THAT column; attributes are the union",
+                     "3 colliding lines x %d field lists (1-3 fields, alphabetical and not) x GFF3/GTF importers" % (len(FORCE_FIELDS) - 1), cases, fails, distinct=cases)
+
+
 def unit_bounded_explicit(U):
     """an explicit id equal to a generated key (known finding F15)"""
     fails = []
@@ -421,7 +552,7 @@ def unit_bounded_explicit(U):
     U.bounded_result("C05.bounded.explicit_generated_key", "create_unique/merge keep all features even when an explicit id equals a generated key", "lines k, k_1, k x 2 strategies", 2, fails, exhaustive=True)
 
 
-UNITS = [("bounded.explicit", unit_bounded_explicit), ("do_merge", unit_do_merge), ("merge_no_candidate", unit_merge_no_candidate), ("collision", unit_collision), ("init", unit_init), ("bounded.merge", unit_bounded_merge)]
+UNITS = [("bounded.explicit", unit_bounded_explicit), ("do_merge", unit_do_merge), ("collision_merge", unit_collision_merge), ("merge_no_candidate", unit_merge_no_candidate), ("collision", unit_collision), ("init", unit_init), ("bounded.merge", unit_bounded_merge), ("bounded.force_fields", unit_bounded_force_fields)]
 
 
 def replay_known(entry):
